@@ -528,6 +528,16 @@ pub struct Layout {
     /// let `pct_v_split` also use CDATA sections for the pieces (`false` in `plain()` AND in `random()`: the worksheet
     /// models of C01 have no CDATA event; C10 and C19 switch it on)
     pub v_split_cdata: bool,
+    /// chance, `<c>` by `<c>`, of attributes from a FOREIGN namespace whose local names are those of the real ones —
+    /// `ext:s`, `ext:t`, `ext:r` with other values (prefix `ext` bound on the root) — and of a namespace declaration
+    /// `xmlns:s="…"` on the cell itself, written before and/or after the real attributes. An attribute in another
+    /// namespace is another attribute; only the unprefixed `s`, `t`, `r` are the cell's. Private stream, `plain()` = 0.
+    /// (C10, seeded C10-m18)
+    pub pct_c_foreign_attr: u8,
+    /// chance, custom format id by custom format id (ids ≥ 164), that the id is written with leading zeros
+    /// (`numFmtId="0164"`), with the SAME spelling in its `<numFmt>` and in every `<xf>` that uses it. Decided from
+    /// `seed` and the id alone. `plain()` = 0. (C10, seeded C10-m17)
+    pub pct_id_zero_pad: u8,
     /// row styles are drawn from `0..row_style_count`; 0 = the length of the book's `cellXfs` (set by `build`)
     pub row_style_count: u32,
     /// where `xl/workbook.xml` declares the relationships-namespace prefix (`rel_prefix`) that `<sheet>` uses.
@@ -589,6 +599,8 @@ impl Layout {
             pct_xf_apply_flag: 0,
             pct_v_split: 0,
             v_split_cdata: false,
+            pct_c_foreign_attr: 0,
+            pct_id_zero_pad: 0,
             row_style_count: 0,
             rel_decl: RelDecl::Workbook,
             shuffle_rows: false,
@@ -655,6 +667,8 @@ impl Layout {
             pct_xf_apply_flag: *own.pick(&[0u8, 0, 50, 100]),
             pct_v_split: *own.pick(&[0u8, 0, 30, 100]),
             v_split_cdata: false,
+            pct_c_foreign_attr: *own.pick(&[0u8, 0, 30, 100]),
+            pct_id_zero_pad: *own.pick(&[0u8, 0, 50, 100]),
         }
     }
     /// short description for counters / failure signatures
@@ -708,6 +722,45 @@ fn arrange(l: &Layout, arng: &mut Rng, mut attrs: Vec<(String, String)>, extras:
         arng.shuffle(&mut attrs);
     }
     attrs
+}
+
+/// the spelling of a number-format id (`pct_id_zero_pad`): the same wherever the id occurs
+pub fn id_text(l: &Layout, id: u32) -> String {
+    if id >= 164 && l.pct_id_zero_pad > 0 {
+        let mut r = Rng(l.seed ^ 0x1D0_9AD ^ (id as u64).wrapping_mul(0x9E37_79B9_7F4A_7C15));
+        r.next();
+        if roll(&mut r, l.pct_id_zero_pad) {
+            let w = id.to_string().len() + r.range(1, 3) as usize;
+            return format!("{:0w$}", id, w = w);
+        }
+    }
+    id.to_string()
+}
+
+/// foreign-namespace twins of the cell's own attributes and a misleading namespace declaration (`pct_c_foreign_attr`)
+fn with_foreign(l: &Layout, frng: &mut Rng, attrs: Vec<(String, String)>) -> Vec<(String, String)> {
+    if !roll(frng, l.pct_c_foreign_attr) {
+        return attrs;
+    }
+    let mut twins: Vec<(String, String)> = vec![];
+    if frng.chance(2, 3) {
+        twins.push(("ext:s".into(), (*frng.pick(&["0", "1", "2", "3", "65536"])).into()));
+    }
+    if frng.chance(1, 3) {
+        twins.push(("ext:t".into(), (*frng.pick(&["s", "b", "e", "str", "n"])).into()));
+    }
+    if frng.chance(1, 3) {
+        twins.push(("ext:r".into(), (*frng.pick(&["XFD1", "A1", "B7"])).into()));
+    }
+    if twins.is_empty() || frng.chance(1, 3) {
+        twins.push(("xmlns:s".into(), "urn:verif:s".into()));
+    }
+    let mut out = vec![];
+    let k = frng.below(twins.len() as u64 + 1) as usize;
+    out.extend(twins[..k].iter().cloned());
+    out.extend(attrs);
+    out.extend(twins[k..].iter().cloned());
+    out
 }
 
 const C_EXTRAS: [(&str, &str); 3] = [("cm", "0"), ("vm", "0"), ("ph", "0")];
@@ -791,10 +844,15 @@ pub fn render_sheet(sheet: &XlsxSheet, l: &Layout, rng: &mut Rng, sst: &mut Sst)
     let mut rsrng = attr_rng(l, &format!("{}#rowstyle", sheet.name));
     // <v>-splitting knob: its own stream
     let mut vrng = attr_rng(l, &format!("{}#vsplit", sheet.name));
+    // foreign-attribute knob: its own stream
+    let mut frng = attr_rng(l, &format!("{}#foreign", sheet.name));
     let mut sprng = attr_rng(l, &format!("{}#spans", sheet.name));
     let (nk, nv) = l.ns_attr();
     let mut root_attrs = vec![(nk, nv)];
     root_attrs.push((format!("xmlns:{}", if l.rel_prefix.is_empty() { "r" } else { &l.rel_prefix }), NS_REL.to_string()));
+    if l.pct_c_foreign_attr > 0 {
+        root_attrs.push(("xmlns:ext".into(), "urn:verif:foreign".into()));
+    }
     if l.pct_row_style > 0 {
         root_attrs.push(("xmlns:x14ac".into(), "http://schemas.microsoft.com/office/spreadsheetml/2009/9/ac".into()));
     }
@@ -939,6 +997,7 @@ pub fn render_sheet(sheet: &XlsxSheet, l: &Layout, rng: &mut Rng, sst: &mut Sst)
             if let Some(s) = cell.style {
                 attrs.push(("s".into(), s.to_string()));
             }
+            let attrs = with_foreign(l, &mut frng, attrs);
             render_cell(cell, l, rng, &mut arng, &mut vrng, sst, attrs, &mut out);
             col_index = c + 1;
         }
@@ -1152,7 +1211,7 @@ pub fn render_styles(book: &XlsxBook, l: &Layout) -> Vec<Ev> {
         let ca = count_attr(&mut srng, book.num_fmts.len());
         out.push(Ev::Start(l.q("numFmts"), ca));
         for (id, code) in &book.num_fmts {
-            let attrs = arrange(l, &mut arng, vec![("numFmtId".into(), id.to_string()), ("formatCode".into(), code.clone())], &[]);
+            let attrs = arrange(l, &mut arng, vec![("numFmtId".into(), id_text(l, *id)), ("formatCode".into(), code.clone())], &[]);
             out.push(Ev::Start(l.q("numFmt"), attrs));
             out.push(end(&l.q("numFmt")));
         }
@@ -1199,7 +1258,7 @@ pub fn render_styles(book: &XlsxBook, l: &Layout) -> Vec<Ev> {
         let mut base: Vec<(String, String)> = vec![];
         // `numFmtId` is optional and defaults to 0: a General entry may come without it and still owns its index
         if !(*id == 0 && roll(&mut srng, l.pct_xf_omit_general)) {
-            base.push(("numFmtId".into(), id.to_string()));
+            base.push(("numFmtId".into(), id_text(l, *id)));
         }
         let flagged = roll(&mut afrng, l.pct_xf_apply_flag);
         if flagged {
